@@ -57,7 +57,7 @@ CHECKS["C11"] = dict(
     engine="seq",
     category="exploration",
     technique="bounded exhaustive enumeration of inputs against an independent reference encoder (Engine.IO v4), round trips, and an allocation meter in a memory-capped subprocess",
-    text="Single packets (all types x every payload of length <= 2 over 256 byte values, and a byte pattern of every length 3..4200 plus the neighbourhoods of 8/16/32/48/64 KiB and 70000, x binary/base64 modes), payloads of 0-3(4) packets over a 13-packet alphabet, every WebTransport frame length in the three prefix forms (0..70000 in thorough) in three read compositions with a following frame to catch desynchronisation, every byte string of length <= 2(3) into all decoders, and hostile length headers under an allocation meter (limit + 64 KiB) in a ulimit-capped worker. Oracles: bytes equal a reference encoder written from the v4 protocol, decode(encode(p)) = p, EncodedLen = bytes written, no panic, allocation bounded by the configured limit.",
+    text="Single packets (all types x every payload of length <= 2 over 256 byte values, and a byte pattern of every length 3..4200 plus the neighbourhoods of 8/16/32/48/64 KiB and 70000, x binary/base64 modes), payloads of 0-3(4) packets over a 13-packet alphabet plus text packets whose data begins / ends with white space or control characters as the only, first and last packet of a payload, every WebTransport frame length in the three prefix forms (0..70000 in thorough) in three read compositions with a following frame to catch desynchronisation, every byte string of length <= 2(3) into all decoders, and hostile length headers under an allocation meter (limit + 64 KiB) in a ulimit-capped worker. Oracles: bytes equal a reference encoder written from the v4 protocol, decode(encode(p)) = p, EncodedLen = bytes written, no panic, allocation bounded by the configured limit.",
     note="Trusted: the reference encoder in harness/c11/ref.go (self-tested against the protocol document's examples). Plain build (no scheduler).",
     design="3/C11")
 
